@@ -114,6 +114,8 @@ type Profile struct {
 	PExtTaint   float64
 	PZeroCreation float64 // node objects with a zero creationTimestamp
 	PAsgEdit    float64 // operator edits of the ASG min/max/desired
+	PResize     float64 // allocatable of all nodes of a group changes (kubelet reservation rollout)
+	FaultBias   map[string]float64 // per-op multiplier of the fault probability
 }
 
 func baseProfile() Profile {
@@ -122,7 +124,7 @@ func baseProfile() Profile {
 		PDry: 0.08, PGlobalDry: 0.03, PFleet: 0.2, PStarve: 0.2, PMaxAge: 0.15, PAuto: 0.15, PMaxBelow: 0.3,
 		PCalm: 0.5, PCrash: 0.3, POdd: 0.1, PNegRates: 0.04, PInvalid: 0.03, PDefault: 0.25,
 		OperatorP: 0.08, Interleave: 0.05, HorizonLo: 20, HorizonHi: 60, PReconfigure: 0.3, EdgeBias: 0.3,
-		ShortCool: 0.6, ShortGrace: 0.7, POverMax: 0.08, PForceTaint: 0.25, PAnnotate: 0.25, PCordon: 0.3, PExtTaint: 0.25, PZeroCreation: 0.03, PAsgEdit: 0.08,
+		ShortCool: 0.6, ShortGrace: 0.7, POverMax: 0.08, PForceTaint: 0.25, PAnnotate: 0.25, PCordon: 0.3, PExtTaint: 0.25, PZeroCreation: 0.03, PAsgEdit: 0.08, PResize: 0.03,
 	}
 }
 
@@ -141,9 +143,10 @@ func profileFor(prop string) Profile {
 	case "C04":
 		p.PMaxBelow, p.PAuto, p.PAsgEdit = 0.6, 0.15, 0.3
 	case "C05", "C06":
-		p.EdgeBias, p.PDry, p.PGlobalDry, p.POdd = 0.5, 0.02, 0, 0.02
+		p.EdgeBias, p.PDry, p.PGlobalDry, p.POdd, p.PResize = 0.5, 0.02, 0, 0.02, 0.2
 	case "C07":
-		p.PForceTaint, p.PExtTaint, p.PDry, p.PZeroCreation = 0.5, 0.4, 0.02, 0.1
+		p.PForceTaint, p.PExtTaint, p.PDry, p.PZeroCreation = 0.6, 0.4, 0.02, 0.1
+		p.FaultBias = map[string]float64{OpTerminateASG: 6, OpPut: 2}
 	case "C08":
 		p.PDry, p.EdgeBias, p.PZeroCreation = 0.02, 0.2, 0.15
 	case "C09":
@@ -162,6 +165,7 @@ func profileFor(prop string) Profile {
 		p.PFleet, p.PDry, p.PGlobalDry = 0.8, 0, 0
 	case "C19":
 		p.PForceTaint, p.ShortGrace, p.PDry = 0.5, 0.9, 0.02
+		p.FaultBias = map[string]float64{OpTerminateASG: 5, OpDelete: 3}
 	case "C20":
 		p.POdd, p.PCalm, p.PFleet, p.ShortCool = 0.7, 0.3, 0.3, 0.8
 	}
